@@ -192,23 +192,30 @@ Proof.
 Qed.
 
 Lemma pk_clo_del l c g st op bu :
-  NoDup (ckeys l) ->
-  (forall c1 c2 g, In c1 l -> In c2 l -> c_stat c1 = CDel g -> c_stat c2 = CDel g -> c_k c1 = c_k c2) ->
-  In c l -> c_stat c = CDel g -> idle_st st = true ->
+  NoDup (ckeys l) -> one_on l -> In c l -> clo_on g c = true -> idle_st st = true ->
   pk_clo l op bu -> pk_clo (clo_set l (c_k c) st) op (adel bu g).
 Proof.
-  intros Hnd Hone Hin Hs Hst (P1 & P2 & P5). repeat split.
+  intros Hnd Hone Hin Hon Hst (P1 & P2 & P5). repeat split.
   - intros c' id' H Hk' Hs'. apply (in_clo_set _ _ _ _ Hnd) in H.
     destruct H as [[H Hne]|(x & Hx & Kx & ->)]; [eapply P1; eassumption|].
     cbn [c_stat] in Hs'. rewrite Hs' in Hst. discriminate Hst.
   - intros c' id' g' H Hk' Hs'. apply (in_clo_set _ _ _ _ Hnd) in H.
     destruct H as [[H Hne]|(x & Hx & Kx & ->)].
     + rewrite aget_adel_ne; [eapply P2; eassumption|].
-      intros ->. apply Hne. eapply Hone; eassumption.
+      intros ->. apply Hne. eapply Hone; try eassumption. apply clo_on_del, Hs'.
     + cbn [c_stat] in Hs'. rewrite Hs' in Hst. discriminate Hst.
   - intros k1 id1 H. destruct (P5 k1 id1 H) as (c1 & H1 & K1 & S1 & R). exists c1. repeat split; auto.
     apply clo_set_in_other; [exact H1|]. intros E.
-    assert (c1 = c) by (eapply ckeys_inj; try eassumption; congruence). subst c1. rewrite S1 in Hs. discriminate Hs.
+    assert (c1 = c) by (eapply ckeys_inj; try eassumption; congruence). subst c1.
+    unfold clo_on in Hon. rewrite S1 in Hon. discriminate Hon.
+Qed.
+
+Lemma pk_clo_adel_free l g op bu :
+  (forall c', In c' l -> clo_on g c' = false) -> pk_clo l op bu -> pk_clo l op (adel bu g).
+Proof.
+  intros Hon (P1 & P2 & P5). repeat split; [exact P1| |exact P5].
+  intros c' id' g' H Hk' Hs'. rewrite aget_adel_ne; [eapply P2; eassumption|].
+  intros ->. pose proof (Hon _ H) as Hf. rewrite (clo_on_del _ _ Hs') in Hf. discriminate Hf.
 Qed.
 
 Lemma pk_last_next u e u' : pk_step u e = Some u' -> pk_last u' = lt_next (pk_last u) e.
@@ -252,14 +259,14 @@ Lemma pk_inv_clo s u e s' u' : inv_c07 s -> pk_inv s u -> step_clo s e = Some s'
   pk_inv s' u'.
 Proof.
   intros (I1 & I2 & _) (Hc & Hp & Hsc) H Hu. apply step_clo_cases in H.
-  destruct H as [k g c id -> Hf Hs Hi Hk -> | k g c -> Hf Hs Hi Hk -> | k g c -> Hf Hs -> | g id c -> Hf ->
-                | g id c -> Hf -> | g c -> Hin Hs -> | g c -> Hin Hs -> | k g c -> Hf Hs -> | k g c -> Hf Hs ->].
+  destruct H as [k g c id -> Hf Hs Hi Hk -> | k g c -> Hf Hs Hi Hk -> | k g c -> Hf Hs Hi -> | g id c -> Hf ->
+                | g id c -> Hf -> | g c -> Hin Hs -> | g c -> Hin Hs -> | k g c -> Hf Hs -> | k g c -> Hf Hs Hi ->].
   - (* call of a pubcomp closure *)
     apply clo_find_in in Hf. destruct Hf as [Hin <-].
     apply pk_step_call in Hu. destruct Hu as [Hno [[Hn ->]|(id' & Ho & ->)]].
     + destruct Hc as (P1 & _). rewrite (P1 _ _ Hin Hk Hs) in Hn. discriminate Hn.
     + assert (id' = id) by (destruct Hc as (P1 & _); rewrite (P1 _ _ Hin Hk Hs) in Ho; congruence). subst id'.
-      unfold pk_inv; sf; cbn [pk_open pk_busy pk_over]. (split; [|split]).
+      unfold pk_inv; sf; cbn [pk_open pk_busy pk_over]. split; [|split].
       * apply pk_clo_call; auto. exact (in_closure_false _ _ Hi).
       * apply pk_pp_call; assumption.
       * apply pk_sc_adel, Hsc.
@@ -272,7 +279,7 @@ Proof.
       assert (c1 = c) by (eapply ckeys_inj; eassumption). subst c1. eapply Hk, Kd1.
   - (* call of a finished closure *)
     apply clo_find_in in Hf. destruct Hf as [Hin <-].
-    apply pk_step_call in Hu. destruct Hu as [Hno [[Hn ->]|(id' & Ho & ->)]]; [(split; [|split]); assumption|].
+    apply pk_step_call in Hu. destruct Hu as [Hno [[Hn ->]|(id' & Ho & ->)]]; [split; [|split]; assumption|].
     exfalso. destruct Hc as (_ & _ & P5). destruct (P5 _ _ Ho) as (c1 & H1 & K1 & S1 & Kd1).
     assert (c1 = c) by (eapply ckeys_inj; eassumption). subst c1. rewrite S1 in Hs. discriminate Hs.
   - (* delete ok *)
@@ -280,17 +287,80 @@ Proof.
     unfold pk_inv. rewrite clos_enq. cbn [pk_open pk_busy pk_over].
     assert (Epp : pp (set_clos (clo_enqueue (sess_delete s Incoming id) c) (clo_set (clos s) (c_k c) (CRun g))) = pp s)
       by (unfold clo_enqueue; destruct (clo_live _ c); reflexivity).
-    rewrite Epp. (split; [|split]); [apply pk_clo_del; auto|apply pk_pp_del, Hp|exact Hsc].
+    rewrite Epp. split; [|split]; [apply pk_clo_del; auto using clo_on_del|apply pk_pp_del, Hp|exact Hsc].
   - (* delete failed *)
     apply clo_del_find_in in Hf. destruct Hf as (Hin & Hs & Hk). cbn [pk_step] in Hu. injection Hu as <-.
     unfold pk_inv; sf; cbn [pk_open pk_busy pk_over].
-    (split; [|split]); [apply pk_clo_del; auto|apply pk_pp_del, Hp|exact Hsc].
+    split; [|split]; [apply pk_clo_del; auto using clo_on_del|apply pk_pp_del, Hp|exact Hsc].
   - cbn [pk_step] in Hu. injection Hu as <-. unfold pk_inv; sf. (split; [|split]); try assumption.
     apply pk_clo_set_irr; auto; right; [rewrite Hs|]; reflexivity.
   - cbn [pk_step] in Hu. injection Hu as <-. unfold pk_inv. destruct (c_conn c =? conn_no s); sf; (split; [|split]); try assumption;
       (apply pk_clo_set_irr; auto; right; [rewrite Hs|]; reflexivity).
-  - apply clo_find_in in Hf. destruct Hf as [Hin <-].
-    cbn [pk_step] in Hu. injection Hu as <-. unfold pk_inv; sf. (split; [|split]); try assumption.
-    apply pk_clo_set_irr; auto; right; [rewrite Hs|]; reflexivity.
-  - cbn [pk_step] in Hu. injection Hu as <-. (split; [|split]); assumption.
+  - (* return *)
+    apply clo_find_in in Hf. destruct Hf as [Hin <-].
+    cbn [pk_step] in Hu. injection Hu as <-. unfold pk_inv; sf; cbn [pk_open pk_busy pk_over].
+    split; [|split]; [|apply pk_pp_del, Hp|exact Hsc].
+    apply pk_clo_del; auto. unfold clo_on. rewrite Hs. apply N.eqb_refl.
+  - (* return of a finished closure *)
+    cbn [pk_step] in Hu. injection Hu as <-. unfold pk_inv; cbn [pk_open pk_busy pk_over].
+    split; [|split]; [|apply pk_pp_del, Hp|exact Hsc].
+    apply pk_clo_adel_free; [exact (in_closure_false _ _ Hi)|exact Hc].
+Qed.
+
+Lemma pk_lookup_over (op : list (N * N)) id k ov :
+  aget op k = Some id -> In k (map fst (filter (fun e => snd e =? id) op) ++ ov).
+Proof.
+  intros H. apply in_app_iff. left. apply aget_in in H. apply in_map_iff. exists (k, id). split; [reflexivity|].
+  apply filter_In. split; [exact H|]. cbn [snd]. apply N.eqb_refl.
+Qed.
+
+Lemma pk_lookup_busy (bu : list (N * N)) id g :
+  existsb (fun e => snd e =? id) bu = false -> aget bu g <> Some id.
+Proof.
+  intros H E. apply aget_in in E.
+  assert (existsb (fun e => snd e =? id) bu = true) by (apply existsb_exists; exists (g, id); split; [exact E|apply N.eqb_refl]).
+  congruence.
+Qed.
+
+Lemma pk_sc_mono op ov ov' : (forall k, In k ov -> In k ov') -> pk_sc op ov -> pk_sc op ov'.
+Proof. intros Hm H k k' id H1 H2 Hne. destruct (H k k' id H1 H2 Hne); [left|right]; auto. Qed.
+
+Lemma pk_sc_cons op ov n id :
+  (forall k, aget op k = Some id -> In k ov) -> pk_sc op ov -> pk_sc ((n, id) :: op) ov.
+Proof.
+  intros Ha H k k' id' H1 H2 Hne.
+  destruct (N.eq_dec k n) as [->|Hk]; destruct (N.eq_dec k' n) as [->|Hk'].
+  - contradiction.
+  - rewrite aget_cons_eq in H1. injection H1 as <-. rewrite aget_cons_ne in H2 by exact Hk'. right. apply Ha, H2.
+  - rewrite aget_cons_eq in H2. injection H2 as <-. rewrite aget_cons_ne in H1 by exact Hk. left. apply Ha, H1.
+  - rewrite aget_cons_ne in H1 by exact Hk. rewrite aget_cons_ne in H2 by exact Hk'. eapply H; eassumption.
+Qed.
+
+Lemma pk_inv_proc s u e s' u' g : gproc s = Some g -> ev_g e = Some g ->
+  plast (pp s) (aget (pk_last u) g) -> pk_inv s u ->
+  step_proc s e = Some s' -> pk_step u e = Some u' -> pk_inv s' u'.
+Proof.
+  intros Hg Heg HL (Hc & Hp & Hsc) H Hu.
+  unfold step_proc, proc_dispatch, die_p, guard, take_pub, take_sub, clo_reg, take_deq_if_any, take_deq in H.
+  destruct (pp s) eqn:Epp; destruct e; try discriminate H; bm H; inv_some H;
+    cbn [ev_g] in Heg; injection Heg as Heg; subst;
+    try (cbn [pk_step] in Hu; injection Hu as <-);
+    unfold pk_inv; sf; cbn [pk_open pk_busy pk_over pk_pp];
+    try (split; [|split]; solve [assumption | exact I
+                                 | apply pk_clo_app_other; [discriminate|assumption]]).
+  all: try (unfold pk_step in Hu;
+            match type of Hu with (if ?b then None else _) = _ => destruct b eqn:Eb; [discriminate Hu|] end;
+            injection Hu as <-; cbn [pk_open pk_busy pk_over];
+            split; [exact Hc|split; [|eapply pk_sc_mono; [|exact Hsc]; intros k Hk; apply in_app_iff; right; exact Hk]];
+            try exact I).
+  - (* PPub1W: the closure stands for a PUBACK *)
+    destruct HL as (d & m' & HL). cbn [pk_step] in Hu. rewrite HL in Hu. injection Hu as <-.
+    split; [|split]; [apply pk_clo_app_other; [discriminate|assumption]|exact I|assumption].
+  - (* PRelLookup: the stored PUBLISH is found *)
+    match goal with E : (_ =? _) && _ = true |- _ => apply andb_true_iff in E; destruct E as [E _]; apply N.eqb_eq in E; subst end.
+    split; [intros k Hk; apply pk_lookup_over, Hk|intros g0; apply pk_lookup_busy, Eb].
+  - (* PRelPub: the closure stands for the PUBCOMP *)
+    cbn [plast] in HL. cbn [pk_step] in Hu. rewrite HL in Hu. injection Hu as <-. cbn [pk_open pk_busy pk_over].
+    destruct Hp as [Ha Hb].
+    split; [|split]; [apply pk_clo_app_pc; assumption|exact I|apply pk_sc_cons; assumption].
 Qed.
